@@ -824,7 +824,9 @@ func (vfs *MemFS) Rename(oldpath, newpath string) error {
 		}
 	}
 
-	if oPI.Path() == nPI.Path() {
+	if oPI.Path() == nPI.Path() || (nChild != nil && nChild == oChild) {
+		// The old and the new name are the same directory entry, or two hard links of the same file :
+		// rename(2) does nothing and reports success.
 		return nil
 	}
 
